@@ -359,26 +359,49 @@ R20.6 exit status: ErrNoNewVersion maps to the distinct non-zero code, any other
 		// the tags created: the version string and the text before its first dot, both at repo.Head()'s hash
 		fct := newFuncCanon(info, ct)
 		okNames, okHash := false, false
+		// the list of tag names: a two-element []string literal {version, text before its first dot}
+		lit := ""
 		ast.Inspect(ct.Body, func(n ast.Node) bool {
-			rs, isR := n.(*ast.RangeStmt)
-			if !isR {
-				return true
-			}
-			cl, isL := ast.Unparen(rs.X).(*ast.CompositeLit)
-			if !isL || len(cl.Elts) != 2 {
+			cl, isL := n.(*ast.CompositeLit)
+			if !isL || len(cl.Elts) != 2 || !typeIs(info.TypeOf(cl), "[]string") {
 				return true
 			}
 			a, b := fct.E(cl.Elts[0]), fct.E(cl.Elts[1])
 			if a == "ARG1" && b == `strings.Split(ARG1, ".")[0]` || b == "ARG1" && a == `strings.Split(ARG1, ".")[0]` {
-				// each element is what CreateTag is called with
-				ast.Inspect(rs.Body, func(m ast.Node) bool {
-					if call, ok := m.(*ast.CallExpr); ok && strings.HasSuffix(calleeName(info, call), "go-git/v5.Repository).CreateTag") && len(call.Args) == 3 {
-						okNames = isObj(info, call.Args[0], info.Defs[rs.Value.(*ast.Ident)])
-						okHash = fct.E(call.Args[1]) == "ARG0.Head<(github.com/go-git/go-git/v5.Repository).Head>()#0.Hash<(github.com/go-git/go-git/v5/plumbing.Reference).Hash>()"
-					}
-					return true
-				})
+				lit = fct.E(cl)
 			}
+			return true
+		})
+		// CreateTag is called, inside a loop over exactly that list, with the loop's element
+		ast.Inspect(ct.Body, func(n ast.Node) bool {
+			st, ok := n.(ast.Stmt)
+			if !ok || lit == "" {
+				return true
+			}
+			var body *ast.BlockStmt
+			elemOK := func(cx string) bool { return false }
+			switch x := st.(type) {
+			case *ast.RangeStmt:
+				if fct.E(x.X) == lit {
+					body = x.Body
+					elemOK = func(cx string) bool { return cx == "rangeval("+lit+")" }
+				}
+			default:
+				if _, bound, b, ok := indexLoop(info, st); ok && fct.E(bound) == "builtin.len("+lit+")" {
+					body = b
+					elemOK = func(cx string) bool { return strings.HasPrefix(cx, lit+"[") && strings.HasSuffix(cx, "]") }
+				}
+			}
+			if body == nil {
+				return true
+			}
+			ast.Inspect(body, func(m ast.Node) bool {
+				if call, ok := m.(*ast.CallExpr); ok && strings.HasSuffix(calleeName(info, call), "go-git/v5.Repository).CreateTag") && len(call.Args) == 3 {
+					okNames = elemOK(fct.E(call.Args[0]))
+					okHash = fct.E(call.Args[1]) == "ARG0.Head<(github.com/go-git/go-git/v5.Repository).Head>()#0.Hash<(github.com/go-git/go-git/v5/plumbing.Reference).Hash>()"
+				}
+				return true
+			})
 			return true
 		})
 		// and the version string handed to createTag is the canonical "v" + semver of the requested version
